@@ -43,6 +43,7 @@ let init_of_header (hd : string list) : st * sst =
       | _ -> failwith ("bad base " ^ base)) in
     List.fold_left (fun (m, s) l ->
       if l = "f" then (Flu ([], m), SFlu ([], s))
+      else if l = "z" then (Lzy ([], false, m), SLzy ([], false, s))
       else if l = "s" then (Syn m, SSyn s)
       else if String.length l >= 1 && l.[0] = 't' then
         let p = bytes_of_tok (String.sub l 1 (String.length l - 1)) in (Tab (p, m), STab (p, s))
@@ -87,7 +88,8 @@ let toks_of_obs (o : obs) : string list =
                  List.concat_map (function WPut (k, v) -> ["P"; tok_of_bytes k; tok_of_bytes v]
                                          | WDel k -> ["D"; tok_of_bytes k]) l
   | BNfp n -> ["N"; tok_of_nat n]
-  | BCompact (lo, hi) -> ["C"; tok_of_okey lo; tok_of_okey hi]
+  | BCompact (Some (lo, hi)) -> ["C"; tok_of_okey lo; tok_of_okey hi]
+  | BCompact None -> ["C"; "!"; "!"]
   | BNone -> ["X"]
 
 (* take the implementation's tokens of one observation off the stream *)
@@ -157,11 +159,12 @@ let eval (inp : string list) (impl : string list) : Drv.verdict =
         let (chunk, rest') = next_chunk !rest in
         rest := rest';
         (match o, om with
-         | OCompact (h, a, l), BCompact (lo, hi) ->
-           if not (compact_ok sr_before.ss_store h a l lo hi) then ms_ok := false;
+         | OCompact (h, a, l), BCompact rng ->
+           if not (compact_ok sr_before.ss_store h a l rng) then ms_ok := false;
            (match chunk with
             | ["C"; ilo; ihi] ->
-              if not (compact_ok sr_before.ss_store h a l (okey_of_tok ilo) (okey_of_tok ihi)) then fail_spec "compact range does not cover the table"
+              let irng = if ilo = "!" then None else Some (okey_of_tok ilo, okey_of_tok ihi) in
+              if not (compact_ok sr_before.ss_store h a l irng) then fail_spec "compact range does not cover the table"
             | _ -> fail_spec "compact")
          | _ ->
            let st = toks_of_obs os in
